@@ -310,6 +310,31 @@ let run_y args =
                      (String.concat "," (List.map (show_pos g' rsf) all)))))))
   | _ -> "BAD-CASE"
 
+(* `Q <events1> / <events2>` (C11) *)
+let rec tokens_of g acc = match g with
+  | GTok _ -> g :: acc
+  | GNode (_, _, _, _, cs) -> List.fold_left (fun a c -> tokens_of c a) acc cs
+
+let run_q args =
+  let builds = split_list "/" args in
+  let cache = ref empty_cache and greens = ref [] and ok = ref true in
+  List.iter (fun b -> match build_in !cache b with
+      | Some (g, c) -> cache := c; greens := g :: !greens
+      | None -> ok := false) builds;
+  if not !ok then "BUILD-PANIC" else begin
+    let strs = !cache.c_strs in
+    let toks = List.rev (List.fold_left (fun acc g -> tokens_of g acc) [] (List.rev !greens)) in
+    let descr = List.map (fun t -> match t with
+        | GTok (_, k, key, _) ->
+          Printf.sprintf "%d:%s:%s:%s:r" (int_of_n k)
+            (match tok_text static_text strs k key with Some x -> show_text x | None -> "<none>")
+            (match key with Some i -> string_of_int (int_of_n i) | None -> "-")
+            (match static_text k with Some x -> show_text x | None -> "-")
+        | _ -> "?") toks in
+    let rows = List.map (fun a -> String.concat "" (List.map (fun b -> if text_eq static_text a b then "1" else "0") toks)) toks in
+    String.concat " " descr ^ " | " ^ String.concat "," rows
+  end
+
 let run_line line =
   match List.filter (fun s -> s <> "") (String.split_on_char ' ' line) with
   | [] -> ""
@@ -318,6 +343,7 @@ let run_line line =
   | "G" :: args -> run_g args
   | "Y" :: args -> run_y args
   | "I" :: args -> run_i args
+  | "Q" :: args -> run_q args
   | "N" :: args -> run_n args
   | "P" :: _ -> "ok"
   | "L" :: args -> run_h args ^ " || leak 0"
